@@ -211,27 +211,39 @@ Deterministic(s, d) == ~(s.k = "s" \/ d.k = "s" \/ (s.k = "u" /\ d.k = "u" /\ d.
 (* order keys for the row-level monotonicity demand (integers and non-negative floats) *)
 OrdKey(v) == IF v.k = "f" THEN (IF FSign(v.w) = 1 THEN WZero ELSE v.w) ELSE <<0, v.n>>
 
+(* Evaluation note (TLC): operator arguments are evaluated once and cached, LET definitions    *)
+(* inside actions are re-evaluated at every use -- so shared values are passed as arguments.   *)
+
+ChannelsOK(df, spx, dpx) == \A c \in Chan : CBits(df, c) > 0 => ConvOK(spx[c], c, dpx[c])
+
 (* destination pixel x of buffer after holds the conversion of source pixel spx *)
 PixelConvOK(df, pal, spx, after, x) ==
     IF IsIndexed(df)
     THEN RawAt(after, df.bpp, x)[2] = PalEnt(df, pal, Key15(df, Pixel8(spx)))
-    ELSE LET dpx == PixelCV(df, pal, after, x) IN
-         \A c \in Chan : CBits(df, c) > 0 => ConvOK(spx[c], c, dpx[c])
+    ELSE ChannelsOK(df, spx, PixelCV(df, pal, after, x))
 
-(* a row: w pixels of the source (already decoded, 1-based sequence) land at dx..dx+w-1 *)
-RowConvOK(df, pal, spxs, after, dx) ==
-    \A i \in 1..Len(spxs) : PixelConvOK(df, pal, spxs[i], after, dx + i - 1)
+(* a row: pixels sx.. of the source buffer (pixel 0 for every i when rep = 1: a 1x1 repeating  *)
+(* source) land at dx..dx+w-1 of the destination buffer after                                   *)
+SrcIndex(sx, i, rep) == IF rep = 1 THEN 0 ELSE sx + i
+RowConvOK(sf, spal, sbuf, sx, rep, df, dpal, after, dx, w) ==
+    \A i \in 0..(w - 1) : PixelConvOK(df, dpal, PixelCV(sf, spal, sbuf, SrcIndex(sx, i, rep)), after, dx + i)
 
-(* monotone: a larger source channel never gives a smaller destination channel (checked     *)
+(* the conversion between two formats leaves freedom (see ConvOK) *)
+NonDetPair(sf, df) == IsSRGB(sf) \/ IsSRGB(df) \/ (IsPacked(sf) /\ IsPacked(df) /\ IsWide(df) /\ ~IsWide(sf))
+
+(* monotone: a larger source channel never gives a smaller destination channel (demanded     *)
 (* where the conversion is not already pinned down to one value)                             *)
-RowMonotone(df, pal, spxs, after, dx) ==
-    IF IsIndexed(df) THEN TRUE
-    ELSE LET dpxs == [i \in 1..Len(spxs) |-> PixelCV(df, pal, after, dx + i - 1)] IN
-         \A c \in Chan : \A i, j \in 1..Len(spxs) :
-            (/\ CBits(df, c) > 0 /\ spxs[i][c].k \in {"u", "s"} /\ spxs[j][c].k \in {"u", "s"}
-             /\ ~Deterministic(spxs[i][c], dpxs[i][c])
-             /\ spxs[i][c].n <= spxs[j][c].n)
-            => WLe(OrdKey(dpxs[i][c]), OrdKey(dpxs[j][c]))
+MonoPx(df, si, sj, di, dj) ==
+    \A c \in Chan :
+       (/\ CBits(df, c) > 0 /\ si[c].k \in {"u", "s"} /\ sj[c].k \in {"u", "s"}
+        /\ si[c].n <= sj[c].n)
+       => WLe(OrdKey(di[c]), OrdKey(dj[c]))
+
+RowMonotone(sf, spal, sbuf, sx, rep, df, dpal, after, dx, w) ==
+    (NonDetPair(sf, df) /\ ~IsIndexed(df) /\ ~IsIndexed(sf)) =>
+       \A i, j \in 0..(w - 1) :
+          MonoPx(df, PixelCV(sf, spal, sbuf, SrcIndex(sx, i, rep)), PixelCV(sf, spal, sbuf, SrcIndex(sx, j, rep)),
+                 PixelCV(df, dpal, after, dx + i), PixelCV(df, dpal, after, dx + j))
 
 (* frame: only the bits of pixels dx..dx+w-1 differ between before and after *)
 FrameOK(df, before, after, dx, w) == SameOutside(before, after, dx * df.bpp, (dx + w) * df.bpp)
